@@ -55,7 +55,7 @@ PROPS = {
         level="proof",
         required_theorems=["requests_are_maximal_runs", "maximalRuns_spec", "runRequest_bounds",
                            "clone_over_http_requests_runs_of_missing_chunks"],
-        suites=dict(quick=[("l1", "c07"), ("py", "c07_wire")], thorough=[("l1", "c07"), ("py", "c07_wire")]),
+        suites=dict(quick=[("l1", "c07"), ("py", "c07_wire"), ("l1", "c08-http")], thorough=[("l1", "c07"), ("py", "c07_wire"), ("l1", "c08-http")]),
         needs_bita=True,
         rule="real HttpReader::read_chunks against a scripted loopback HTTP server: every non-empty subset of the "
              "descriptors of small random layouts (exhaustive per layout) plus random larger/unordered lists, random "
